@@ -196,5 +196,32 @@ CHECKS["C12"] = dict(
     technique="TLA+ call-shape/binding model enumerated with TLC; every shape replayed on generated predicates and symbolic functions",
 )
 
+CHECKS["C18"] = dict(
+    engine="JsonSer",
+    category="exploration",
+    text=("JsonSer.tla (part value): the value grammar (None, booleans, int, float, str, UUID, two registered third-party types one "
+          "of which subclasses the other, objects of A, B<:A, C<:B and of a second class named A in another module, lists) with "
+          "the type tag every object must carry; TLC enumerates all shapes of depth <= 1 and seeded random subsets of depth 2 "
+          "and 3; the harness concretises each shape with adversarial / sampled leaf values and checks "
+          "from_json(json.loads(json.dumps(to_json(v)))) against v with exact classes, and the tags in the serialised text."),
+    design_ref="DESIGN.md §4 C18",
+    note=("Trusted: TLC for the shapes, Python's json module. Leaf values are pooled/sampled by the harness, not model-enumerated "
+          "(TLC has no floats, 32-bit ints, ASCII strings): exploration level only."),
+    technique="TLA+ value-shape grammar enumerated/sampled with TLC; shapes concretised and round-tripped through real JSON text",
+)
+CHECKS["C19"] = dict(
+    engine="JsonSer",
+    category="exploration",
+    text=("JsonSer.tla (part tag): type-tag resolution as a stage machine Get / TypeCheck / Split / Import / GetAttr / ClassCheck / "
+          "Dispatch with one failure transition per stage; TLC checks that every one of the 24 tag classes ends in its documented "
+          "JSONSerializationError subclass or an instance and refutes the three deviation switches (non-string tag reaches "
+          "rsplit, only ModuleNotFoundError mapped, non-class reaches issubclass). Each class is replayed with 2-6 concrete tags "
+          "sent through JSON text into from_json, after the process has already deserialised valid documents; exhaustive over "
+          "the tag classes."),
+    design_ref="DESIGN.md §4 C19",
+    note="Trusted: TLC, the assignment of concrete tags to tag classes.",
+    technique="TLA+ stage machine of tag resolution checked with TLC; every tag class replayed with concrete tags through from_json",
+)
+
 NOT_YET = "check not built yet in this build round (specified in DESIGN.md §4; will be claimed when its TLA+ module and binding exist)"
 NOT_APPLICABLE = {}
